@@ -514,6 +514,134 @@ CHECKS["C12"] = Spec(
     rule="see schedule_rule",
     extra=_c12_check,
 )
+def _bs_data(b):
+    n = [0, 1, 7, 40, 300, 4096, 13, 64][b % 8]
+    d = bytes(((b * 31 + i * 7) & 255) for i in range(n))
+    if b % 4 == 2 and n < 4:
+        d += bytes([1, 2, 3, 4])
+    return d
+
+def _bs_check(ctx):
+    """C15: sequences of blockstore calls on the real adapter with real CIDs; contract oracle."""
+    prop, tier, wd, rng = ctx["prop"], ctx["tier"], ctx["wd"], ctx["rng"]
+    C.go_build(["bsdrive"])
+    n = 400 if tier == "quick" else 12000
+    seqs = []
+    cdir = os.path.join(C.VERIF, "corpus", prop)
+    if os.path.isdir(cdir):
+        for fn in sorted(os.listdir(cdir)):
+            if fn.endswith(".bsseq"):
+                seqs += [l.strip() for l in open(os.path.join(cdir, fn)) if l.strip() and not l.startswith("#")]
+    if ctx.get("replay") and ctx["replay"].endswith(".bsseq"):
+        seqs, n = [l.strip() for l in open(ctx["replay"]) if l.strip() and not l.startswith("#")], 0
+    def var(b=None):
+        b = rng.randint(0, 11) if b is None else b
+        return "%d:%d:%s" % (b, rng.randint(0, 1), rng.choice(("raw", "dagpb", "dagcbor")))
+    for _ in range(n):
+        ops = []
+        for _ in range(rng.randint(4, 40)):
+            r = rng.random()
+            c = " c" if rng.random() < 0.1 else ""
+            if r < 0.25: ops.append("put %s%s" % (var(), c))
+            elif r < 0.33: ops.append("putmany %s%s" % (",".join(var() for _ in range(rng.randint(1, 6))), c))
+            elif r < 0.38: ops.append("putbad %s %d%s" % (var(), rng.randint(0, 11), c))
+            elif r < 0.60: ops.append("get %s%s" % (var(), c))
+            elif r < 0.70: ops.append("has %s%s" % (var(), c))
+            elif r < 0.80: ops.append("size %s%s" % (var(), c))
+            elif r < 0.88: ops.append("del %s%s" % (var(), c))
+            elif r < 0.96: ops.append("hor %d" % rng.randint(0, 1))
+            else: ops.append("flush")
+        seqs.append(" ; ".join(ops))
+    parts = C.chunks(seqs, C.NCPU)
+    from concurrent.futures import ThreadPoolExecutor
+    def one(i):
+        inp = os.path.join(wd, "bs%d.in" % i); out = os.path.join(wd, "bs%d.jsonl" % i)
+        open(inp, "w").write("\n".join(parts[i]) + "\n")
+        p = C.sh([os.path.join(C.BIN, "bsdrive"), inp, out], check=False, timeout=3000, env=dict(os.environ, GOLOG_LOG_LEVEL="fatal"))
+        if p.returncode != 0:
+            raise C.CheckError("bsdrive failed: " + p.stdout[-2000:])
+        return [json.loads(l) for l in open(out)]
+    with ThreadPoolExecutor(len(parts)) as ex:
+        outs = list(ex.map(one, range(len(parts))))
+    viol, nontriv = [], set()
+    kinds = collections.Counter()
+    nbad = 0
+    for pi, recs in enumerate(outs):
+        byseq = collections.defaultdict(list)
+        for r in recs:
+            byseq[r["seq"]].append(r)
+        for sq, rs in byseq.items():
+            m, hor, bad = {}, False, None
+            alias = hashbad = False
+            for r in rs:
+                op, res = r["op"], r["res"]
+                kinds[op + ("/cancelled" if r["cancelled"] else "")] += 1
+                def fail(msg):
+                    return "op %d (%s %s%s): %s" % (r["i"], op, r["arg"], " cancelled" if r["cancelled"] else "", msg)
+                if r["cancelled"] and op not in ("hor", "flush"):
+                    if res != "ctx":
+                        bad = fail("a call with a cancelled context answered %s" % res)
+                    if bad: break
+                    continue           # no side effect: the map is not updated
+                if op in ("put", "putbad"):
+                    b = int(r["arg"].split(":")[0])
+                    d = _bs_data(b) if op == "put" else _bs_data(int(r["arg"].split()[1]))
+                    if res != "ok": bad = fail("Put answered %s" % res)
+                    m.setdefault(r["mh"], d)
+                elif op == "putmany":
+                    if res != "ok": bad = fail("PutMany answered %s" % res)
+                    for x, mh in zip(r["arg"].split(","), r.get("mhs") or []):
+                        m.setdefault(mh, _bs_data(int(x.split(":")[0])))
+                elif op in ("get", "has", "size", "del"):
+                    b = int(r["arg"].split(":")[0])
+                    key = r["mh"]
+                    present = key in m
+                    if op == "get":
+                        if not present:
+                            if res != "notfound": bad = fail("Get of an unknown CID answered %s, expected the IPLD not-found error" % res)
+                        elif hor and m[key] != _bs_data(b):
+                            hashbad = True
+                            if res != "wronghash": bad = fail("hash-on-read is enabled and the stored bytes do not hash to the CID, Get answered %s" % res)
+                        else:
+                            if res != "ok": bad = fail("Get answered %s" % res)
+                            elif bytes.fromhex(r.get("data", "")) != m[key]: bad = fail("Get returned other bytes than were put")
+                    elif op == "has":
+                        if res != "ok" or r["bool"] != present: bad = fail("Has answered %s %s, block present: %s" % (res, r.get("bool"), present))
+                    elif op == "size":
+                        if not present:
+                            if res != "notfound": bad = fail("GetSize of an unknown CID answered %s" % res)
+                        elif res != "ok" or r["size"] != len(m[key]): bad = fail("GetSize answered %s %s, block has %d bytes" % (res, r.get("size"), len(m[key])))
+                    elif op == "del":
+                        if res != "ok": bad = fail("DeleteBlock answered %s" % res)
+                        m.pop(key, None)
+                elif op == "hor":
+                    hor = r["arg"] == "1"
+                elif op == "flush":
+                    hor = False      # the sequence reopens the blockstore: a fresh adapter has hash-on-read disabled
+                if bad:
+                    break
+            txt = parts[pi][sq]
+            if len(rs) >= 6 and any(r["op"] in ("get", "size") and r["res"] == "ok" for r in rs) and any(r["op"] == "del" for r in rs):
+                nontriv.add(txt)
+            if bad:
+                nbad += 1
+                if len(viol) < 3:
+                    rp = C.save_replay(prop, "bs-%s.bsseq" % hashlib.sha1(txt.encode()).hexdigest()[:10], "# C15 fails on the implementation: %s\n# replay: cd /verif && ./check C15 --replay <this file>\n%s\n" % (bad, txt))
+                    viol.append(("blockstore: " + bad, rp, True))
+    return viol, {"evaluations": len(seqs), "distinct_nontrivial": len(nontriv), "oracle_failures": nbad, "op_histogram": dict(kinds),
+                  "samples": [{"sequence": seqs[-1]}],
+                  "sequence_rule": "4-40 calls of Put / PutMany (1-6 blocks, duplicates allowed) / Put with mismatching bytes / Get / Has / GetSize / DeleteBlock / HashOnRead(on|off) / reopen over 12 blocks "
+                                   "(sizes 0,1,7,13,40,64,300,4096; sha2-256, identity, blake2b-256 multihashes) addressed through CIDv0/v1 x raw/dag-pb/dag-cbor variants, 10 % of the calls with a cancelled context; "
+                                   "oracle = the contract stated by the property (a map keyed by multihash); non-trivial = >= 6 calls with a successful read and a delete"}
+
+CHECKS["C15"] = Spec(
+    prop_file="C15.v",
+    weights=None,
+    witnesses=["F6-hash-on-read-disabled"],
+    tools=["witness", "bsdrive"],
+    rule="see sequence_rule",
+    extra=_bs_check,
+)
 CHECKS["C14"] = Spec(
     prop_file="C14.v",
     weights=None,
